@@ -31,7 +31,7 @@ func TestMain(m *testing.M) {
 }
 
 func build(cfg gen.Config, prefix string) goldmark.Markdown {
-	cfg.Footnote = false
+	cfg.Footnote, cfg.FnPrefix = false, 0
 	exts := cfg.Extensions()
 	if prefix == "" {
 		exts = append(exts, extension.Footnote)
